@@ -9,7 +9,9 @@ Direct oracle on the real reader (base document vs variant built by construction
   (b) namespaced attributes on any element, also inside prototypes             -> dumps must be equal
   (c) extension records in prototypes (unique and standard local names)        -> U:<prefix>:<name>/<type> at its place, rest equal
   (d) the three known shapes (same local name before the standard sibling, first child of a leaf,
-      descendant capture), generated on random documents: reported under their known classes when the dump changes."""
+      descendant capture), generated on random documents: reported under their known classes when the dump changes.
+      (Since /repo cec9560 images2D is looked up among the children of e57Root, so a captured copy of images2D
+      no longer changes the dump; the generator still produces it, data3D and the limit values are still captured.)"""
 import os, re, struct
 from vlib import core, xegen
 from props import xe
